@@ -1,12 +1,18 @@
 """C15: StatefulAutonomous runs each state for its duration, in every period.
 
-Tie to the source: generated StatefulAutonomous subclasses (type()), scripted
+Tie to the source: generated StatefulAutonomous subclasses (type()) -- half of
+them a hierarchy of 2-4 classes with the states spread over the mode class and
+its bases (inherited states, an inherited first state, definitions hidden by a
+more derived one); the class bodies go to Coq in MRO order and the model's
+__build_states (Model.build_states) decides what the mode's states are and
+whether the constructor raises --, scripted
 state functions that log the arguments they receive and perform (and log)
 scripted next_state()/done() calls, real SmartDashboard/NetworkTables entries "<MODE_NAME>\\<state>_duration"
 edited between periods, dyadic tm values (ticks of 1/64 s).  The recorded
 list of state-function invocations and escaping exceptions of every history is
-compared INSIDE Coq with the visible part of `trace sh h` of Stateful/Model.v
-(work/C15/cases_*.v, `bad 0 cases`).  How the code moves between states
+compared INSIDE Coq with the visible part of `mode_trace inf mro h` of
+Stateful/Model.v (work/C15/cases_*.v, `cbad 0 cases`; the constructor raising
+is part of the observation).  How the code moves between states
 internally (self.next_state() at an expiry, the body of done()) is not
 specified by C15 and not observed.
 
